@@ -12,8 +12,9 @@ use super::c13::capacity_of;
 use crate::cachex::{is_item_name, item_file_name, key_dir_name, key_of, list_files, open, run_batch, Op, OpOutcome, B64};
 use crate::engine::{idx, journal, Case, Ctx, Sm64};
 use base64::Engine;
+use chunk_cache::ChunkCache;
 
-pub const RULE: &str = "per key a virtual xorb (chunk i of key k is a pure function of (k, i)); histories of put / get / re-open / damage over <= 4 keys with overlapping, nested and adjacent chunk ranges and capacities from 'fits two items' to ample. Damage is applied directly before a re-open (file deletion also while open): burst of <= 32 flipped bits at any offset of a cache file, truncation, extension, deletion of file / key directory / prefix directory, junk files and directories at root / prefix / key level with random, too-short, base64-decodable and cache-item-shaped names and random content, rename to a junk name, swap of two items' names. Stream 'forged': additionally renames that keep an item's length and checksum fields but claim another chunk range - the format cannot tell such an entry from a genuine one, so after a forge hits are only counted, but initialize / put / get must still not panic. Concurrent stream: the same operations from 2-3 threads under the schedule controller. Histories run in child processes with a case journal. Oracle: initialize / put / get never panic; every get is a miss, an error, or a hit whose data, offsets and range equal the slice of the key's virtual xorb. non-trivial = a hit on a strict sub-range of a stored range, or a hit after a re-open that followed >= 1 damage operation; distinct by fingerprint of the generated history";
+pub const RULE: &str = "per key a virtual xorb (chunk i of key k is a pure function of (k, i)); histories of put / get / re-open / damage over <= 4 keys with overlapping, nested and adjacent chunk ranges and capacities from 'fits two items' to ample. Damage is applied directly before a re-open (file deletion also while open): burst of <= 32 flipped bits at any offset of a cache file, truncation, extension, deletion of file / key directory / prefix directory, junk files and directories at root / prefix / key level with random, too-short, base64-decodable and cache-item-shaped names and random content, rename to a junk name, swap of two items' names. Stream 'forged': additionally renames that keep an item's length and checksum fields but claim another chunk range - the format cannot tell such an entry from a genuine one, so after a forge hits are only counted, but initialize / put / get must still not panic. Concurrent stream: the same operations from 2-3 threads under the schedule controller. Histories run in child processes with a case journal. Oracle: initialize / put / get never panic; every get is a miss, an error, or a hit whose data, offsets and range equal the slice of the key's virtual xorb. Stream 'wide': one key, 1-2 items of up to 140 000 tiny chunks with chunk counts and start indices drawn with a bias to 2^k-1 / 2^k / 2^k+1 (the widths the header and the file name store counts and indices in), sub-range gets with the same bias, before and after a re-open, no damage; same hit oracle; non-trivial there = a hit on an item of more than 255 chunks. non-trivial = a hit on a strict sub-range of a stored range, or a hit after a re-open that followed >= 1 damage operation; distinct by fingerprint of the generated history";
 
 pub const ASSUMPTIONS: &[&str] = &[
     "forged entries are outside the fault model: a rename or planted file that keeps a consistent (length, CRC) identity while changing range or key directory cannot be told from a genuine entry by any reader of this on-disk format",
@@ -358,18 +359,115 @@ fn oracle(c: &C12Case, info: &mut Case) -> Result<(), String> {
     Ok(())
 }
 
+// ---- stream 'wide': items with many chunks (counts around the u8 / u16 / 2^17 widths) ----
+
+#[derive(Clone, Debug, Serialize, Deserialize)]
+pub struct WideCase {
+    pub key: u8,
+    /// (start selector, chunk count) of each stored item
+    pub items: Vec<(u32, u32)>,
+    /// (item, first chunk relative to the item, length selector)
+    pub gets: Vec<(u8, u32, u32)>,
+    pub reopen: bool,
+}
+
+fn wide_chunk(k: u8, i: u32) -> ([u8; 3], usize) {
+    let h = Sm64(0x31DE ^ ((k as u64) << 40) ^ i as u64).next();
+    ([h as u8, (h >> 8) as u8, (h >> 16) as u8], 1 + (h >> 24) as usize % 3)
+}
+
+fn wide_data(k: u8, a: u32, b: u32) -> (Vec<u32>, Vec<u8>) {
+    let mut offsets = Vec::with_capacity((b - a) as usize + 1);
+    offsets.push(0u32);
+    let mut data = Vec::with_capacity((b - a) as usize * 2);
+    for i in a..b {
+        let (c, l) = wide_chunk(k, i);
+        data.extend_from_slice(&c[..l]);
+        offsets.push(data.len() as u32);
+    }
+    (offsets, data)
+}
+
+fn wide_strategy() -> impl Strategy<Value = WideCase> {
+    let item = (prop_oneof![2 => Just(0u32), 1 => crate::gen::edge_u32(1 << 20)], crate::gen::edge_u32(140_000).prop_map(|n| n.max(1)));
+    (0u8..4, proptest::collection::vec(item, 1..=2), proptest::collection::vec((0u8..2, crate::gen::edge_u32(140_000), crate::gen::edge_u32(140_000)), 1..8), any::<bool>())
+        .prop_map(|(key, items, gets, reopen)| WideCase { key, items, gets, reopen })
+}
+
+fn wide_oracle(c: &WideCase, info: &mut Case) -> Result<(), String> {
+    journal(&serde_json::to_string(c).unwrap_or_default());
+    let tmp = tempfile::Builder::new().prefix("xvc-").tempdir_in(crate::engine::work_dir()).map_err(|e| format!("[sig:infra] tempdir: {e}"))?;
+    let root = tmp.path().join("cache");
+    let mut cache = open(&root, 1 << 30).map_err(|e| format!("[sig:c12-initialize-error] initialize of an empty directory failed: {e}"))?;
+    let key = key_of(c.key);
+    let mut stored = Vec::new();
+    for (s, n) in &c.items {
+        let (a, b) = (*s, *s + *n);
+        let (o, d) = wide_data(c.key, a, b);
+        match cache.put(&key, &cas_types::ChunkRange { start: a, end: b }, &o, &d) {
+            Ok(()) => stored.push((a, b)),
+            Err(e) => info.label(format!("put-error:{}", e.to_string().chars().take(40).collect::<String>())),
+        }
+        if *n > 65_535 {
+            info.label("item-of-more-than-65535-chunks");
+        } else if *n > 255 {
+            info.label("item-of-256..65535-chunks");
+        }
+    }
+    let mut hits = 0;
+    for round in 0..2 {
+        for (it, rel, len) in &c.gets {
+            let Some((s, e)) = stored.get(*it as usize % stored.len().max(1)).copied() else { continue };
+            let a = s + (*rel).min(e - s - 1);
+            let b = (a as u64 + 1 + *len as u64).min(e as u64) as u32;
+            let range = cas_types::ChunkRange { start: a, end: b };
+            match cache.get(&key, &range) {
+                Ok(None) | Err(_) => {},
+                Ok(Some(r)) => {
+                    hits += 1;
+                    let (o, d) = wide_data(c.key, a, b);
+                    if r.range != range {
+                        return Err(format!("[sig:c12-hit-range] hit for chunks [{a},{b}) of a stored item [{s},{e}) reports range {:?}", r.range));
+                    }
+                    if r.data[..] != d[..] {
+                        return Err(format!("[sig:c12-hit-data] hit for chunks [{a},{b}) of a stored item [{s},{e}) ({} chunks) returned {} bytes that differ from what was stored ({} bytes){}", e - s, r.data.len(), d.len(), if round == 1 { " after a re-open" } else { "" }));
+                    }
+                    if r.offsets[..] != o[..] {
+                        return Err(format!("[sig:c12-hit-offsets] hit for chunks [{a},{b}) of a stored item [{s},{e}) returned offsets that differ from the stored ones"));
+                    }
+                    if e - s > 65_535 {
+                        info.label(if b - s > 65_535 { "hit-reaching-past-chunk-65535-of-item" } else { "hit-below-chunk-65536-of-wide-item" });
+                    }
+                },
+            }
+        }
+        if !c.reopen || round == 1 {
+            break;
+        }
+        drop(cache);
+        cache = open(&root, 1 << 30).map_err(|e| format!("[sig:c12-initialize-error] re-open failed: {e}"))?;
+        info.label("reopen");
+    }
+    info.nontrivial_if(hits > 0 && c.items.iter().any(|(_, n)| *n > 255));
+    info.note = Some(json!({"items": c.items, "hits": hits}));
+    Ok(())
+}
+
 pub fn run(ctx: &Ctx) {
     let n_seq = ctx.tier.pick(6_000, 200_000);
     let n_conc = ctx.tier.pick(2_000, 60_000);
     let n_forged = ctx.tier.pick(3_000, 60_000);
+    let n_wide = ctx.tier.pick(1_200, 40_000);
     if ctx.is_worker || ctx.replay.is_some() {
         ctx.explore("sequential", n_seq, 1, || case_strategy(false), oracle);
         ctx.explore("concurrent", n_conc, 1, || case_strategy(true), oracle);
         ctx.explore("forged", n_forged, 1, forged_case_strategy, oracle);
+        ctx.explore("wide", n_wide, 1, wide_strategy, wide_oracle);
     } else {
         let env = BTreeMap::new();
         ctx.explore_workers("sequential", n_seq, 16, &env, Duration::from_secs(ctx.tier.pick(600, 7200)));
         ctx.explore_workers("concurrent", n_conc, 16, &env, Duration::from_secs(ctx.tier.pick(600, 7200)));
         ctx.explore_workers("forged", n_forged, 16, &env, Duration::from_secs(ctx.tier.pick(600, 7200)));
+        ctx.explore_workers("wide", n_wide, 16, &env, Duration::from_secs(ctx.tier.pick(600, 7200)));
     }
 }
